@@ -55,8 +55,9 @@ def cases(draw):
         gen.add_outputs(draw, spec, prob=40, bad_bytes=False)
     # tests that touch the same interpreter state themselves
     for t in tests:
-        r = draw(st.integers(0, 11))
-        act = {0: ['warn_filter', 'simple'], 1: ['warn_filter', 'message'], 2: ['settrace_cycle'], 3: ['chdir', '/']}.get(r)
+        r = draw(st.integers(0, 13))
+        act = {0: ['warn_filter', 'simple'], 1: ['warn_filter', 'message'], 2: ['settrace_cycle'], 3: ['chdir', '/'],
+               4: ['garbage', 'bad_repr'], 5: ['garbage', 'plain']}.get(r)
         if act:
             t.setdefault('acts', {}).setdefault(draw(st.sampled_from(['setUp', 'body', 'tearDown'])), []).append(act)
     if draw(st.integers(0, 5)) == 0:
@@ -225,7 +226,11 @@ class InProc(Part):
         for k in ('gc', 'G', 'coverage', 'profile', 'buffer', 'post_mortem'):
             if o.get(k):
                 labels.append('opt:' + k)
-        return Outcome(viol, labels, nchg >= 2 and abnormal)
+        garbage = any(a[0] == 'garbage' for _, t in gen.iter_tests(case['spec']) for acts in (t.get('acts') or {}).values()
+                      for a in acts)
+        if garbage and o.get('gc_after_test') and o.get('verbose', 0) >= 4:
+            labels.append('cycle-report-of-left-garbage')
+        return Outcome(viol, labels, (nchg >= 2 and abnormal) or 'cycle-report-of-left-garbage' in labels)
 
 
 def _run(spec, args, before, state, o):
